@@ -1,11 +1,12 @@
 from checklib import steps
 from checklib.registry import generic, COMMON_NOTE
+from checklib.props.C09b_part import DRIVER_ENV   # where the harness finds the Lean acceptor for its own re-checks
 
 SKEL = ["queue/delay_queue.go"]
 # the same harness binary under both timer-channel disciplines of the Go runtime
 CORRS = [
-    dict(harness="delayq", area="delayq", name="delayq-sync", env={"GODEBUG": "asynctimerchan=0"}),
-    dict(harness="delayq", area="delayq", name="delayq-async", env={"GODEBUG": "asynctimerchan=1"}),
+    dict(harness="delayq", area="delayq", name="delayq-sync", env=dict(DRIVER_ENV, GODEBUG="asynctimerchan=0")),
+    dict(harness="delayq", area="delayq", name="delayq-async", env=dict(DRIVER_ENV, GODEBUG="asynctimerchan=1")),
     # the DelayQueue model abstracts its heap to "an element of minimal deadline": that assumption is what the C05 heap
     # theorems (c05_pq_dequeue_min, c05_pq_step_refines …) prove about the heap MODEL, so the heap model must be an
     # acceptor for the real internal/queue.PriorityQueue on this run too (growth beyond 64 slots, shrinking, ties)
@@ -17,7 +18,7 @@ def thorough_extra(work, res):
     # the same scenarios with the race detector (a race report makes the harness exit non-zero)
     for disc in ("0", "1"):
         t = steps.TraceCorr(work, res, "C08", harness="delayq", area="delayq", tier="quick",
-                            name="delayq-race-atc" + disc, env={"GODEBUG": "asynctimerchan=" + disc}, race=True)
+                            name="delayq-race-atc" + disc, env=dict(DRIVER_ENV, GODEBUG="asynctimerchan=" + disc), race=True)
         t.run(proofs_ok=True)
 
 
